@@ -51,7 +51,8 @@ fn sngs() -> Vec<V> {
         .collect()
 }
 fn dbls() -> Vec<V> {
-    [0.0f64, 0.5, -0.5, 1.5, -2.5, 2.0, 16777216.0, 32767.5, 32768.0, -32768.5, 3.4e38, 1e-38, 1e300, 0.1, 3.0]
+    // (the last four sit next to a whole number by less than Single precision resolves)
+    [0.0f64, 0.5, -0.5, 1.5, -2.5, 2.0, 16777216.0, 32767.5, 32768.0, -32768.5, 3.4e38, 1e-38, 1e300, 0.1, 3.0, 2.99999999, 99.9999999, 32767.9999, -32768.00001]
         .iter()
         .map(|n| V::Dbl(*n))
         .collect()
@@ -863,7 +864,7 @@ impl Check for C02 {
             states_note: "transitions = evaluations on the implementation compared with refmodel::value".into(),
             assumptions: vec![
                 "+ - * / and SQR are exactly rounded and compared bit for bit; ^ with a non-Integer result, SIN COS TAN ATN EXP LOG within 4 ulp".into(),
-                "comparisons of unequal floats closer than 4 epsilon are outside the defined fragment (skipped)".into(),
+                "= and <> of unequal floats closer than 4 epsilon are outside the defined fragment (the implementation's equality is tolerant by design) and skipped; < <= > >= are exact for all operands".into(),
                 "literal rules with ambiguous precedence (E exponent with more than 7 digits, leading zeros, % on non-integers, radix values above 32767) are skipped".into(),
             ],
         }
